@@ -23,14 +23,17 @@ Record evrec := mkEv {
   ev_jp_count : Z; ev_jp_min : Z;     (* the job's occupied count / minMember when JobPipelined was asked; -1: not asked *)
   ev_order : list positive; ev_obs : list cobs;
   ev_qorder : list positive;
-  ev_palloc : res }.                   (* what the preemptor's job holds at the vote *)        (* the candidates in the pop order of the plugins' victims queue *)
+  ev_palloc : res;                     (* what the preemptor's job holds at the vote *)
+  ev_jp_roles : list (positive * Z) }. (* per role of the job's minTaskMember: its occupied pods (allocated, succeeded, pipelined,
+                                          pending best-effort) when JobPipelined was asked *)        (* the candidates in the pop order of the plugins' victims queue *)
 
 Definition dObs : dec cobs :=
   let* i := dPos in let* s := dStatus in let* r := dZ in let* q := dRes in let* ja := dRes in ret (mkObs i s r q ja).
 Definition dEvrec : dec evrec :=
   let* v := dPos in let* a := dZ in let* p := dPos in let* n := dNodeRef in let* pn := dNodeRef in
   let* jc := dZ in let* jm := dZ in
-  let* o := dListS dPos in let* ob := dListS dObs in let* qo := dListS dPos in let* pa := dRes in ret (mkEv v a p n pn jc jm o ob qo pa).
+  let* o := dListS dPos in let* ob := dListS dObs in let* qo := dListS dPos in let* pa := dRes in
+  let* jr := dListS (let* r := dPos in let* c := dZ in ret (r, c)) in ret (mkEv v a p n pn jc jm o ob qo pa jr).
 
 Record law_in := mkLawIn { li_spec : spec; li_lims : list qlim_spec; li_clims : list clim_spec; li_evs : list evrec;
                            li_final : list (positive * status * option positive) }.
@@ -281,10 +284,22 @@ Definition law_plugins_all : bool := forallb respects_all (li_evs L).
    moment the job's own counters (waiting + ready + pending best-effort) reached minMember *)
 Definition gang_configured : bool :=
   existsb (existsb (fun pl => bool_decide (p_kind pl = KGang))) (sp_tiers sp).
+(* ... and every role minimum (minTaskMember, CheckTaskPipelined over TaskMinAvailable) was reached, a role
+   without any occupied pod included; as in the code the role minimums only count when they do not
+   exceed minMember in total *)
+Definition role_count (e : evrec) (r : positive) : Z :=
+  match filter (fun kv => bool_decide (fst kv = r)) (ev_jp_roles e) with kv :: _ => snd kv | [] => 0 end.
+Definition roles_made_it (e : evrec) (p : task_spec) : bool :=
+  match spec_job (ts_job p) with
+  | Some j =>
+    if bool_decide (js_min j < fold_left (fun acc kv => acc + snd kv) (js_role_min j) 0) then true
+    else forallb (fun kv => bool_decide (snd kv <= role_count e (fst kv))) (js_role_min j)
+  | None => false
+  end.
 Definition job_made_it (e : evrec) : bool :=
   with_pair e (fun v p =>
     if bool_decide (ts_job v = ts_job p) || negb gang_configured then true
-    else bool_decide (0 <= ev_jp_min e) && bool_decide (ev_jp_min e <= ev_jp_count e)).
+    else bool_decide (0 <= ev_jp_min e) && bool_decide (ev_jp_min e <= ev_jp_count e) && roles_made_it e p).
 Definition law_job_pipelined : bool := forallb job_made_it (li_evs L).
 
 (* 106: a pod whose eviction the cache refuses is not evicted: it is in no accepted evictor call and
